@@ -16,8 +16,8 @@
 (*  scheme/reg/referrer.go:referrerPut                                     *)
 (*     p_lock    muRefTag.Lock            (iff LockPut; the code: TRUE)    *)
 (*     p_get_rq  referrerListByTag = ManifestGet(fall-back tag) (+ the     *)
-(*               cacheMan.Set inside ManifestGet) + ReferrerList.Add,      *)
-(*               which mutates the fetched manifest object via SetOrig     *)
+(*               cacheMan.Set inside ManifestGet) + ReferrerList.Add       *)
+(*               (new manifest object; as found: SetOrig on the fetched)   *)
 (*     p_puttag_rq  ManifestPut(tag, index)                                *)
 (*     p_cman2   cacheMan.Set(index) inside that ManifestPut               *)
 (*     p_crl2    cacheRL.Set(subject, list); deferred Unlock; return       *)
@@ -25,13 +25,14 @@
 (*     d_get / d_get_rq   ManifestGet(artifact): cacheMan hit or GET       *)
 (*     d_unl     (deferred Unlock of referrerDelete) cacheMan.Delete(art.)  *)
 (*     d_delete_rq  DELETE manifests/<digest>                              *)
-(*     d_cman2   cacheMan.Delete(artifact) again after a successful DELETE *)
+(*     d_cman2   after a successful DELETE: cacheMan.Delete(artifact) again *)
+(*               and (InvAfterDel) cacheRL.Delete(subject) again           *)
 (*  scheme/reg/referrer.go:referrerDelete                                  *)
 (*     d_crl     cacheRL.Delete(subject)                                   *)
 (*     d_ping / d_ping_rq  referrerPing: feature cache or GET referrers/   *)
-(*     d_lock    muRefTag.Lock            (iff LockDel; the code: FALSE,   *)
-(*               suspicion S7)                                             *)
-(*     d_gettag_rq  referrerListByTag + ReferrerList.Delete (mutating)     *)
+(*     d_lock    muRefTag.Lock (iff LockDel; as found: not taken, S7);     *)
+(*               with LockDelEarly it precedes d_crl                       *)
+(*     d_gettag_rq  referrerListByTag + ReferrerList.Delete                *)
 (*     d_puttag_rq  ManifestPut(tag, index) (+ cacheMan.Set)               *)
 (*     d_tagdel_rq  TagDelete: DELETE manifests/<tag>                      *)
 (*  scheme/reg/tag.go:TagDelete fall-back when DELETE by tag fails         *)
@@ -51,20 +52,25 @@
 (* works on; a cacheMan entry is either frozen content ("val") or a        *)
 (* reference to the object of a running call ("ref", p), resolved through  *)
 (* obj[p]; when the call returns its references are frozen.  With          *)
-(* CowIndex = FALSE (the code) Add/Delete mutate the object that           *)
-(* ManifestGet just cached under the OLD digest; with TRUE they build a    *)
-(* new object (the proposed repair).  Digests are ideal: the digest of an  *)
+(* CowIndex = FALSE (as found) Add/Delete mutate the object that           *)
+(* ManifestGet just cached under the OLD digest; with TRUE (the code now)  *)
+(* they build a new object.  Digests are ideal: the digest of an           *)
 (* index IS its content (a sequence of artifacts).                         *)
 (*                                                                         *)
-(* Design switches.  LockPut / LockDel / LockDelEarly / CowIndex select     *)
-(* between the code as it is (TRUE / FALSE / FALSE / FALSE) and the        *)
-(* repairs of findings C10-1 and C10-2 (all TRUE): LockDel makes           *)
-(* referrerDelete take muRefTag, LockDelEarly takes it before the          *)
-(* cacheRL.Delete (taking it only around the read-modify-write leaves a    *)
-(* stale cached list behind, see C10_mc config "late lock").  MixSameArt   *)
-(* lets a push and a delete of ONE artifact overlap (finding C10-3: not    *)
-(* serialisable by these locks).  ListConc lets the lister run while calls *)
-(* are in flight (finding C10-4, beyond the statement's quantifier).       *)
+(* Design switches.  The defaults of the registered configs are the code  *)
+(* as it is now (LockPut = LockDel = LockDelEarly = CowIndex = InvAfterDel *)
+(* = TRUE: referrerDelete takes muRefTag before its cacheRL.Delete, Add /   *)
+(* Delete build a new manifest, ManifestDelete invalidates cacheRL again   *)
+(* after its DELETE - fix commits afda30b, 81bfe70, 7834b3b).  Setting a   *)
+(* switch to FALSE gives the design as it was found: LockDel = FALSE is    *)
+(* finding C10-1 (lost update on the fall-back tag), CowIndex = FALSE is   *)
+(* C10-2 (SetOrig mutates the object cached under the OLD digest),         *)
+(* InvAfterDel = FALSE with ListConc is C10-4; LockDelEarly = FALSE is the *)
+(* insufficient repair "lock only around the read-modify-write" (stale     *)
+(* cached list).  MixSameArt lets a push and a delete of ONE artifact      *)
+(* overlap (finding C10-3, still open: not serialisable by these locks).   *)
+(* ListConc lets the lister run while calls are in flight (beyond the      *)
+(* statement's quantifier; even the current design keeps a finer race).    *)
 (*                                                                         *)
 (* Deliberate deviations: cache expiry / pruning and the expiry of the     *)
 (* feature cache are not modelled (minutes; a history lasts milliseconds); *)
@@ -84,9 +90,10 @@ CONSTANTS ProcSeq,     \* updater goroutines, as a sequence (fixes the launch or
           SameSubject, \* TRUE: overlapping calls all name one subject
           MixSameArt,  \* TRUE: a push and a delete of the SAME artifact may overlap
           LockPut,     \* referrerPut takes muRefTag        (code: TRUE)
-          LockDel,     \* referrerDelete takes muRefTag     (code: FALSE)
-          LockDelEarly,\* ... and takes it before cacheRL.Delete
-          CowIndex,    \* Add/Delete build a new object     (code: FALSE)
+          LockDel,     \* referrerDelete takes muRefTag     (code: TRUE, as found: FALSE)
+          LockDelEarly,\* ... and takes it before cacheRL.Delete (code: TRUE)
+          CowIndex,    \* Add/Delete build a new object     (code: TRUE, as found: FALSE)
+          InvAfterDel, \* ManifestDelete clears cacheRL again after its DELETE (code: TRUE, as found: FALSE)
           ObsFilters,  \* the queries the lister may issue (a subset of Filters)
           ListConc     \* TRUE: ReferrerList may also run while calls are in flight (beyond the
                        \* statement's quantifier; its own result is then not judged)
@@ -355,12 +362,14 @@ DDeleteRq(p) ==
   /\ UNCHANGED <<conf, srvTag, srvIdx, feat, cacheRL, cacheArt, mu, op, lpc, lq, lacc, lcur, lconc, phase, left>>
 
 \* after a successful DELETE the artifact is dropped from cacheMan once more (a concurrent push or
-\* get of the same digest may have stored it again)
+\* get of the same digest may have stored it again) and so is the cached referrer list of its
+\* subject (a listing may have cached it while the delete was in progress; fix of C10-4)
 DCMan2(p) ==
   /\ pc[p] = "d_cman2"
   /\ cacheArt' = cacheArt \ {A(p)}
+  /\ cacheRL' = IF InvAfterDel THEN [cacheRL EXCEPT ![S(p)] = NoList] ELSE cacheRL
   /\ Finish(p, "ok", cacheIdx, obj[p].v)
-  /\ UNCHANGED <<conf, srvMan, srvTag, srvIdx, feat, cacheRL, mu, op, lpc, lq, lacc, lcur, lconc, phase, left>>
+  /\ UNCHANGED <<conf, srvMan, srvTag, srvIdx, feat, mu, op, lpc, lq, lacc, lcur, lconc, phase, left>>
 
 \* --------------------------------------------- ocidir: the whole call under o.mu
 ORun(p) ==
